@@ -19,7 +19,7 @@ impl Check for C09 {
         "C09"
     }
     fn plan(&self, tier: Tier) -> Plan {
-        Plan { cases: if tier == Tier::Quick { 3000 } else { 80_000 }, max_len: 4096 }
+        Plan { cases: if tier == Tier::Quick { 12_000 } else { 200_000 }, max_len: 4096 }
     }
     fn rule(&self) -> String {
         "choice sequence -> valid file (codestream from the reference frame generators; bare, or container with jxlc / split jxlp at generated and structure-aligned points, 32/64-bit/to-EOF box sizes, raw and brob Exif/xml/other boxes interleaved) x generated chunking (whole, 1-byte, fixed-n, random cut sets, cuts within -3..+17 of structure boundaries: box headers, jxlp index, image header end, frame header end, TOC end, every section boundary). Driver follows the documented feed contract. Oracle: versus JxlImageBuilder::read of the whole buffer: identical image header, frame/keyframe counts, every frame_offset, frame headers, completion flag, Exif (offset+payload) / xml, JPEG status, original ICC, and bit-identical samples of every keyframe. Non-trivial: >= 3 chunks and a cut strictly inside a structure; distinct by FNV of (file, cuts).".into()
